@@ -10,4 +10,5 @@ pub mod model {
 pub mod ops;
 pub mod pools;
 pub mod props;
+pub mod speller;
 pub mod strat;
